@@ -33,7 +33,15 @@ Cp2kKeys == {"STEPS", "TIMESTEP", "TEMPERATURE"}
 Cp2kCases == [kind : {"cp2k"}, present : SUBSET Cp2kKeys, update : SUBSET Cp2kKeys, has_print : BOOLEAN,
               add_section : BOOLEAN, remove_print : BOOLEAN]
 
-WellFormed(x) == IF x.kind = "cp2k" THEN TRUE ELSE IF x.kind = "traj"
+(* A LAMMPS template declares variables `variable name index infretis_<x>`; write_for_run replaces the   *)
+(* requested tokens.  defined: the variables the template declares; requested: the settings handed over; *)
+(* again: declared variables whose token stands on a second line as well (used twice, or named in a      *)
+(* comment); lookalike: a word that merely starts with a requested token shares a line with it.          *)
+LmpVars == 1..3
+LammpsCases == [kind : {"lammps"}, defined : SUBSET LmpVars, requested : SUBSET LmpVars, again : SUBSET LmpVars,
+                again_in_comment : BOOLEAN, lookalike : BOOLEAN]
+
+WellFormed(x) == IF x.kind = "cp2k" THEN TRUE ELSE IF x.kind = "lammps" THEN x.again \subseteq x.defined ELSE IF x.kind = "traj"
                  THEN /\ x.k < x.nframes
                       /\ (x.fmt = "lammpstrj" => x.natoms >= 2)            \* its reader relies on 2-D tables
                       /\ (x.op = "append" => x.nframes >= 2)
@@ -43,9 +51,13 @@ WellFormed(x) == IF x.kind = "cp2k" THEN TRUE ELSE IF x.kind = "traj"
                  ELSE \A i \in x.set_existing : i <= x.nkeys
 
 Init == /\ done = FALSE /\ law = "?"
-        /\ c \in {x \in TrajCases \cup TemplCases \cup Cp2kCases : WellFormed(x)}
+        /\ c \in {x \in TrajCases \cup TemplCases \cup Cp2kCases \cup LammpsCases : WellFormed(x)}
 Apply == /\ ~done /\ done' = TRUE /\ UNCHANGED c
-         /\ law' = IF c.kind = "cp2k" THEN "tree(edit(T)) = edit(tree(T)), idempotent"
+         /\ law' = IF c.kind = "lammps"
+                   THEN IF c.requested \subseteq c.defined
+                        THEN "every requested token replaced wherever it is a word, nothing else changed, same result when written again"
+                        ELSE "a requested variable the template does not declare is an error"
+                   ELSE IF c.kind = "cp2k" THEN "tree(edit(T)) = edit(tree(T)), idempotent"
                    ELSE IF c.kind = "template" THEN "edit-exactly-and-idempotent"
                    ELSE CASE c.op = "roundtrip" -> "read(write(F)) = F"
                           [] c.op = "extract"   -> "extract(k)(F) = <<F[k]>>"
